@@ -242,25 +242,38 @@ where
     R: tokio::io::AsyncRead + Unpin,
 {
     let mut interval = tokio::time::interval(tokio::time::Duration::from_millis(FLUSH_INTERVAL_MS));
+    // The line currently being read. `read_until` is not cancellation safe: when another
+    // branch of the select! below wins, whatever it has already appended to its buffer would
+    // be lost with a per-iteration buffer. This one outlives the iterations, so a line that
+    // is interrupted (e.g. by the flush tick while the writer pauses mid-line) is resumed.
+    let mut buf = Vec::new();
     loop {
         let mut bufs = Vec::new();
         loop {
-            let mut buf = Vec::new();
             tokio::select! {
                 _ = token.cancelled() => {
+                    if !buf.is_empty() {
+                        bufs.push(std::mem::take(&mut buf));
+                    }
                     process_bufs(&header, bufs, &compressor_client, &mut log_stream_client, true).await?;
                     return Err(MonorailError::TaskCancelled);
                 }
                 res = reader.read_until(b'\n', &mut buf) => {
                     match res {
                         Ok(0) => {
+                            if !buf.is_empty() {
+                                bufs.push(std::mem::take(&mut buf));
+                            }
                             process_bufs(&header, bufs, &compressor_client, &mut log_stream_client, true).await?;
                             return Ok(());
                         },
                         Ok(_n) => {
-                            bufs.push(buf);
+                            bufs.push(std::mem::take(&mut buf));
                         }
                         Err(e) => {
+                            if !buf.is_empty() {
+                                bufs.push(std::mem::take(&mut buf));
+                            }
                             process_bufs(&header, bufs, &compressor_client, &mut log_stream_client, true).await?;
                             return Err(MonorailError::from(e));
                         }
